@@ -217,7 +217,11 @@ def _replay_roundtrip(job, inputs, notes):
     except Exception as e:
         return f"cfg-roundtrip-raises | {job}: {type(e).__name__}: {str(e)[:120]}"
     for nm, l in (("through JSON text", loaded), ("in memory", loaded2)):
-        if json.dumps(_plain(_fields(l)), sort_keys=True) != before or l.maze_ctor is not cfg.maze_ctor or not (l == cfg):
+        # JSON text has no tuples: a coordinate nested inside a recorded filter's positional arguments (the made-up
+        # `custom_coords` shape; no registered filter takes one) comes back as a list, so for that shape equality through
+        # JSON text is judged on the normalised structure, exactly as the symbolic obligation does
+        strict_eq = not (nm == "through JSON text" and job["f"] == "args")
+        if json.dumps(_plain(_fields(l)), sort_keys=True) != before or l.maze_ctor is not cfg.maze_ctor or (strict_eq and not (l == cfg)):
             return f"cfg-roundtrip-differs | {nm}: {_plain(_fields(l))} vs {_plain(_fields(cfg))}"
         if not _tuples_ok(l):
             return f"cfg-roundtrip-tuples | {nm}: coordinate lists / filter args not restored as tuples: {l.endpoint_kwargs} {l.applied_filters}"
